@@ -416,8 +416,8 @@ func RunC07Multi(ctx *core.Ctx) {
 		select {
 		case <-done:
 			return true
-		case <-time.After(60 * time.Second):
-			ctx.Fail("L1", "hang-multi-"+mc.View, "checking did not finish within 60 s", mc.describe(ctx.Seed))
+		case <-time.After(180 * time.Second):
+			ctx.Fail("L1", "hang-multi-"+mc.View, "checking did not finish within 180 s", mc.describe(ctx.Seed))
 			return false // the batch may be in use by the stuck goroutine
 		}
 	}
